@@ -179,7 +179,9 @@ class C13(Check):
                         finally:
                             _fl.prune_files_by_bounds = orig
                     lit = flt["x"][1]
-                    lclass = "nan-literal" if (isnan(lit) or (isinstance(lit, (list, tuple)) and any(isnan(v) for v in lit))) else "literal"
+                    lits_ = list(lit) if isinstance(lit, (list, tuple)) else [lit]
+                    tnames = "+".join(sorted({type(v).__name__ for v in lits_ if v is not None})) or "none"
+                    lclass = ("nan-literal" if any(isnan(v) for v in lits_) else "literal") + f"[{tnames}-on-{t_name}]"
                     res.key([t_name, opname, fclass, lclass])
                     if nmatch:
                         res.violation(
